@@ -18,10 +18,12 @@ decoder's error is `minicbor::decode::Error::is_end_of_input()`.  The check deci
          is returned (`Ok(None)` / `None`); a `Result`-returning site must consult `is_end_of_input()` on every Err path and
          return `Err` for the other errors (a site returning `Option` may answer "no message" to every failure).
  BUF-1   original stack, `ChannelBuffer`: every chunk taken from the demuxer is appended to the one buffer that is handed to
-         the retry site; nothing else mutates that buffer.
+         the retry site; nothing else mutates that buffer; after every append a decode attempt lies on every path to the next
+         `dequeue_chunk` or return (a complete message is never left waiting for a further chunk).
  BUF-2   P2P stack, `BearerReadHalf::read_full_msgs`: the leftover removed from the per-channel map is extended with the new
          chunk (in that order), decoded in place, and what is left is re-inserted under the same key it was removed with
-         (and dispatched with), the insertion depending on nothing but the buffer's emptiness; every `from_payload`
+         (and dispatched with), the insertion depending on nothing but the buffer's emptiness; once the segment is joined to
+         the buffer, `from_payload` is attempted on every path to the return / next `read_segment`; every `from_payload`
          implementation hands the very payload it was given to the retry site.
 """
 import re
@@ -546,6 +548,46 @@ def check_retry(res, P):
     return sites
 
 
+# --------------------------------------------------------------------------------------------------------------- decode after every append
+
+def real_returns(f, L):
+    """Blocks where the (logical) function really returns (not the suspension points of a coroutine body)."""
+    reach = L.reachable(0)
+    return [b for b in reach if f.blocks[b]["term"]["k"] == "return" and not L.succ(b)]
+
+
+def decode_before_next_chunk(res, f, key, rule, starts, decodes, acquires, what):
+    """Must-pass-through: from every point where bytes were added to the reassembly buffer, every (logical) path to the next
+    chunk acquisition or to a return passes a decode attempt.  Otherwise a complete message can sit in the buffer while the
+    receiver waits for bytes that never come."""
+    L = X.LogicalCFG(f)
+    decodes = set(decodes)
+    targets = {b: "the next chunk is awaited" for b in acquires}
+    for b in real_returns(f, L):
+        targets.setdefault(b, "the function returns")
+    bad = None
+    for a in starts:
+        if a in decodes:
+            continue
+        reach = set()
+        for s0 in L.succ(a):
+            if s0 in decodes:
+                continue
+            reach |= {s0} | L.reachable(s0, avoid=tuple(decodes))
+        hit = [b for b in targets if b in reach]
+        if hit:
+            bad = (a, hit[0])
+            break
+    if bad is None:
+        res.ok(key, rule, "%d append/definition point(s): a decode attempt lies on every path to the next chunk / return" % len(starts))
+    else:
+        a, b = bad
+        res.violation(key, "%s: after %s (near %s) there is a path on which %s (near %s) without a decode attempt on the buffer: a message "
+                      "that is already complete stays in the buffer (with request/response protocols both sides then wait forever); every "
+                      "appended chunk must be followed by a decode attempt" % (f.path, what, X.term_where(f, a), targets[b], X.term_where(f, b)),
+                      where=X.term_where(f, a), rule=rule)
+
+
 # --------------------------------------------------------------------------------------------------------------- BUF-1
 
 APPEND = re.compile(r"^(alloc::vec::Vec as core::iter::traits::collect::Extend::extend|alloc::vec::Vec::extend_from_slice|alloc::vec::Vec::append)$")
@@ -678,6 +720,10 @@ def check_buf1(res, P, sites):
                           where="%s:%s" % (f.file, f.line), rule="BUF-1")
         else:
             res.ok("buf1:%s:chunk-appended" % f.path, "BUF-1", "every dequeued chunk flows into an append on the buffer")
+        starts = [bi for bi, t in f.calls() if APPEND.match(cname(t)) and t["args"] and (arg_field(f, t["args"][0]) or (None,))[0] == fname]
+        decodes = [bi for bi, t in f.calls() if (t.get("f") or "") in site_paths and t["args"] and (arg_field(f, t["args"][0]) or (None,))[0] == fname]
+        decode_before_next_chunk(res, f, "buf1:%s:decode-after-append" % f.path, "BUF-1", starts, decodes, deq,
+                                 "a chunk is appended to `%s`" % fname)
 
 
 # --------------------------------------------------------------------------------------------------------------- BUF-2
@@ -828,6 +874,21 @@ def check_buf2(res, P, sites):
                                       where=X.term_where(f, S), rule="BUF-2")
                 if okdep:
                     res.ok(kb + ":reinsert-condition", "BUF-2", "insertion depends on %d emptiness test(s) only" % len(deps))
+    for f, cs in loops:
+        og2 = X.Origins(f, append_flows=True)
+        bufs = {X.root_key(f, t["args"][1]) for bi, t in cs}
+        bufs.discard(None)
+        decodes = [bi for bi, t in cs]
+        starts = []
+        for B in bufs:
+            for kind, bi, si, payload in og2.defs().get(B, []):
+                starts.append(bi)
+        for bi, t in f.calls():
+            if APPEND.match(cname(t)) and len(t["args"]) >= 2 and X.origin_calls(X.Origins(f).of_operand(t["args"][1]), r"read_segment"):
+                starts.append(bi)
+        acquires = [bi for bi, t in f.calls() if re.search(r"::read_segment$", cname(t))]
+        decode_before_next_chunk(res, f, "buf2:%s:decode-after-append" % f.path, "BUF-2", sorted(set(starts)), decodes, acquires,
+                                 "the segment is joined to the channel's buffer")
     # from_payload implementations hand their own payload to the retry site
     site_paths = {f.path for f in sites if f.crate == "pallas_network2"}
     impls = [f for f in P.impl_index.get(("pallas_network2::Message", "from_payload"), []) if not is_test_code(f) and "::emulation::" not in f.path]
